@@ -80,6 +80,13 @@ def make_list(rng, fmt):
                     il = [c + 1 for c in il] if rng.random() < 0.4 else gen.sub_idl(rng, il, str(rng.choice(['prefix', 'suffix', 'random'])), nmin=5)
                 if fmt == 'dobs' and i > 0 and rng.random() < 0.5:
                     il = gen.sub_idl(rng, il, str(rng.choice(['prefix', 'suffix', 'stride', 'random'])), nmin=5)
+                elif fmt == 'dobs' and i > 0 and len(il) >= 6 and rng.random() < 0.5:
+                    # same replica, same number of configurations, same first and last one - and another one in between
+                    lst = list(il)
+                    free = [c for c in range(lst[0] + 1, lst[-1]) if c not in set(lst)]
+                    if free:
+                        k = int(rng.integers(1, len(lst) - 1))
+                        il = sorted(set(lst[:k] + lst[k + 1:]) | {int(rng.choice(free))})
                 idls.append(il)
             if fmt == 'dobs' and i > 0 and rng.random() < 0.25 and len(ens) > 1:
                 continue
